@@ -1358,3 +1358,42 @@ V(id='c07-power-as-divisor', prop='C07', file='mpmath/libmp/libmpf.py',
   old="        s = mpf_mul(s, mpf_pow_int(ften, exp, prec+10, prnd), prec, rnd)",
   new="        t = mpf_pow_int(ften, abs(exp), prec+10, prnd)\n        if exp < 0:\n            s = mpf_div(s, t, prec, rnd)\n        else:\n            s = mpf_mul(s, t, prec, rnd)",
   expect='fire:B-R5:from_str')
+
+# ---------------------------------------------------------------- C08 -------
+V(id='c08-repr-17-digits-at-54-bits', prop='C08', file='mpmath/libmp/libmpf.py',
+  old="    if dps == 15 and n <= 53:\n        return 17", new="    if dps == 15:\n        return 17",
+  expect='fire:W-R1:repr_dps')
+V(id='c08-repr-two-extra-digits', prop='C08', file='mpmath/libmp/libmpf.py',
+  old="        return 17\n    return dps + 3", new="        return 17\n    return dps + 1",
+  expect='fire:W-R1:repr_dps')
+V(id='c08-benign-repr-more-digits', prop='C08', file='mpmath/libmp/libmpf.py',
+  old="        return 17\n    return dps + 3", new="        return 17\n    return dps + 4",
+  expect='silent')
+V(id='c08-repr-digits-cached', prop='C08', file='mpmath/ctx_mp.py',
+  old="    @property\n    def _repr_digits(ctx):\n        return repr_dps(ctx._prec)",
+  new="    def _init_repr_digits(ctx):\n        ctx._repr_digits = repr_dps(ctx._prec)",
+  expect='analysis-error:_repr_digits vanished')
+V(id='c08-str-uses-repr-digits', prop='C08', file='mpmath/ctx_mp_python.py',
+  old="        return \"mpf('%s')\" % to_str(s._mpf_, s.context._repr_digits)",
+  new="        return \"mpf('%s')\" % to_str(s._mpf_, s.context._str_digits)",
+  expect='fire:W-R2:_mpf.__repr__')
+V(id='c08-minus-inf-read-as-inf', prop='C08', file='mpmath/libmp/libmpf.py',
+  old="special_str = {'inf':finf, '+inf':finf, '-inf':fninf, 'nan':fnan}",
+  new="special_str = {'inf':finf, '+inf':finf, '-inf':finf, 'nan':fnan}",
+  expect='fire:W-R3')
+V(id='c08-inf-printed-without-sign', prop='C08', file='mpmath/libmp/libmpf.py',
+  old="        if s == finf: return '+inf'\n        if s == fninf: return '-inf'\n        if s == fnan: return 'nan'\n        raise ValueError",
+  new="        if s == finf: return 'inf'\n        if s == fninf: return '-inf'\n        if s == fnan: return 'nan'\n        raise ValueError",
+  expect='fire:W-R3:to_str')
+V(id='c08-round-up-from-6', prop='C08', file='mpmath/libmp/libmpf.py',
+  old="        if len(digits) > dps and digits[dps] in '56789':", new="        if len(digits) > dps and digits[dps] in '6789':",
+  expect='fire:W-R4:to_str')
+V(id='c08-all-nines-exponent', prop='C08', file='mpmath/libmp/libmpf.py',
+  old="                digits = '1' + '0' * (dps - 1)\n                exponent += 1", new="                digits = '1' + '0' * (dps - 1)",
+  expect='fire:W-R4:to_str')
+V(id='c08-no-guard-digits', prop='C08', file='mpmath/libmp/libmpf.py',
+  old="    sign, digits, exponent = to_digits_exp(s, dps+3)", new="    sign, digits, exponent = to_digits_exp(s, dps)",
+  expect='fire:W-R4:to_str')
+V(id='c08-mpc-repr-parts-swapped', prop='C08', file='mpmath/ctx_mp_python.py',
+  old="        r = repr(s.real)[4:-1]\n        i = repr(s.imag)[4:-1]", new="        r = repr(s.imag)[4:-1]\n        i = repr(s.real)[4:-1]",
+  expect='fire:W-R2:_mpc.__repr__')
